@@ -15,6 +15,9 @@ CHECKS["C06"] = dict(text="The real Metric.__call__/_Metric.__call__ label selec
 CHECKS["C02"] = dict(text="The real evaluate_matched_instance decision filter, EvaluateInstancePair, PanopticaResult, Evaluation_List_Metric and the fp/fn/rq/sq/pq calculators run with per-instance metric values, thresholds and (for directly constructed results) unbounded counts as solver variables; list lengths, tp+fp/tp+fn, mean/std, rq and pq identities and ranges are SMT obligations on every path.",
              note="per-instance kernel is a contract stub (free reals under the C06 lemmas); np.std trusted (obligation on its arguments); ranges of quotients via linear side conditions; counterexamples realised as 1-D label maps and replayed through Panoptica_Evaluator.evaluate",
              ref="DESIGN.md section 4 / C02")
+CHECKS["C14"] = dict(text="Every feasible path of the real MaximizeMergeMatching loop (real sorted order, label map, new_combination_score incl. the np.isin union selection) is explored with the score of every (reference, set of predictions) a free real and the metric direction concrete per case; 'matched only if a single prediction meets the threshold', 'merged only if strictly better in the preferred direction' and 'final score at least as good and meets the threshold' are SMT obligations per path.",
+             note="set scores are free reals (over-approximation); counterexamples are realised as voxel counts (second query) or re-found by a guided search and replayed on the real matcher; grid bound",
+             ref="DESIGN.md section 4 / C14")
 NA = {}
 m = {"version": 1, "setup_cmd": "./bootstrap.sh",
      "hooks": {"guard": "PANOPTICA_VERIF", "enable": "no hooks in /repo: checks re-import /repo/panoptica from the working tree into a private twin with model modules substituted at import time (pv/twin.py)",
